@@ -1209,7 +1209,8 @@ func (j *judgeCtx) checkOutcomes() {
 }
 
 func (j *judgeCtx) errExplained(e string) bool {
-	for _, m := range []string{ErrFailedToDequeue.Error(), ErrAcknowledgeJob.Error(), ErrParseJob.Error(), ErrFailedToCastJob.Error(), ErrGetNextQueue.Error(), "invalid status"} {
+	// the worker's error channel also carries the library's own (public) errors
+	for _, m := range []string{ErrJobAlreadyClosed.Error(), ErrJobProcessing.Error(), ErrFailedToDequeue.Error(), ErrAcknowledgeJob.Error(), ErrParseJob.Error(), ErrFailedToCastJob.Error(), ErrGetNextQueue.Error(), "invalid status"} {
 		if strings.Contains(e, m) {
 			return true
 		}
